@@ -68,7 +68,9 @@ func (cl concurrentWriter) Write(al plugintypes.AuditLog) error {
 
 	ymd := t.Format("20060102")
 	ymdhm := ymd + t.Format("-1504")
-	filename := ymdhm + t.Format("05") + "-" + al.Transaction().ID()
+	// The transaction id may be chosen by the connector (a request id of the peer): path separators in it
+	// must not move the record out of its directory, nor make the write fail for want of a sub-directory.
+	filename := ymdhm + t.Format("05") + "-" + fileNameSafeID(al.Transaction().ID())
 
 	logdir := path.Join(cl.logDir, ymd, ymdhm)
 	if err := os.MkdirAll(logdir, cl.logDirMode); err != nil {
@@ -100,3 +102,14 @@ func (cl concurrentWriter) Write(al plugintypes.AuditLog) error {
 }
 
 var _ plugintypes.AuditLogWriter = (*concurrentWriter)(nil)
+
+// fileNameSafeID replaces the path separators of a transaction id so that it can be part of a file name.
+func fileNameSafeID(id string) string {
+	safe := []byte(id)
+	for i, c := range safe {
+		if c == '/' || c == '\\' || c == 0 {
+			safe[i] = '_'
+		}
+	}
+	return string(safe)
+}
